@@ -292,6 +292,41 @@ func targets() []*target {
 			params: []string{"(g_hex : bytes)", "(m_safeSet : list (Z * bool))", "(s_jsonMode : bool)", "(s_buf : bytes)", "(str : bytes)"},
 			result: "option bytes", final: "Some (s_buf)"},
 
+		// ---- RegisterLevel (C17): the options arrive resolved (the regPack fields after every opt ran: o_*);
+		// the seven tables are the state the function hands back; a map write overwrites (mapZ_set / mapB_set) ----
+		{pkg: slogPkg, recv: "", fn: "RegisterLevel", coq: "register", file: "Registry", strict: true, fallback: "RegRef.register_ref",
+			comment: "(returns (error, tables); None = panic / out of fuel)", panicT: "None", retfmt: "Some (%s)", retTy: "option bytes",
+			tymap:   map[string]string{"error": "option bytes"},
+			effects: []string{"g_allLevels", "m_levelToString", "m_stringToLevel", "m_shortTagMap", "m_mLevelColors", "m_mLevelIsEnabledAs", "m_mLevelUseErrorDevice"},
+			opaque: map[string]string{"pack.clr": "o_clr", "pack.bg": "o_bg", "pack.treatAs": "o_treat", "pack.printOutToErrorDevice": "o_err",
+				"pack.shortTags[i]": "(tag_at o_tags i)"},
+			calls: map[string]callSpec{"fmt.Errorf": {pure: "Some %0", lazy: true}},
+			from: func(stmts []ast.Stmt) []ast.Stmt {
+				// leave out `var pack = regPack{..}` and `for _, opt := range opts { opt(&pack) }`
+				var out []ast.Stmt
+				skipped := 0
+				for _, st := range stmts {
+					if ds, ok := st.(*ast.DeclStmt); ok && containsText(ds, "regPack{") {
+						skipped++
+						continue
+					}
+					if rs, ok := st.(*ast.RangeStmt); ok && src(rs.X) == "opts" && strings.Join(strings.Fields(src(rs.Body)), " ") == "{ opt(&pack) }" {
+						skipped++
+						continue
+					}
+					out = append(out, st)
+				}
+				if skipped != 2 {
+					return nil
+				}
+				return out
+			},
+			params: []string{"(g_allLevels : list Z)", "(m_levelToString : list (Z * bytes))", "(m_stringToLevel : list (bytes * Z))",
+				"(m_shortTagMap : list (Z * list (Z * bytes)))", "(m_mLevelColors : list (Z * list Z))", "(m_mLevelIsEnabledAs : list (Z * Z))",
+				"(m_mLevelUseErrorDevice : list (Z * bool))", "(levelValue : Z)", "(title : bytes)", "(o_tags : list bytes)", "(o_clr o_bg o_treat : Z)", "(o_err : bool)"},
+			result: "option (option bytes * list Z * list (Z * bytes) * list (bytes * Z) * list (Z * list (Z * bytes)) * list (Z * list Z) * list (Z * Z) * list (Z * bool))",
+			final:  "None"},
+
 		// ---- the buffer methods of PrintCtx (C19) ----
 		bufT("empty", "buf_empty", nil, "bool", "false", false),
 		bufT("Len", "buf_len", nil, "Z", "0", false),
@@ -373,6 +408,7 @@ var genFiles = [][2]string{
 	{"Paths", "Require Import Verif.Model.Base Verif.Model.Decision Verif.Model.GoSem Verif.Model.Path Verif.Model.PathRef."},
 	{"Escapes", "Require Import Verif.Model.Base Verif.Model.Decision Verif.Model.GoSem Verif.Model.Utf8 Verif.Model.EscRef."},
 	{"Buffers", "Require Import Verif.Model.Base Verif.Model.Decision Verif.Model.GoSem Verif.Model.Utf8 Verif.Model.Buffer Verif.Model.BufRef."},
+	{"Registry", "Require Import Verif.Model.Base Verif.Model.Decision Verif.Model.Dec Verif.Model.GoSem Verif.Model.Level Verif.Model.RegRef."},
 	{"LevelNames", "Require Import Verif.Model.Base Verif.Model.Decision Verif.Model.Dec Verif.Model.GoSem Verif.Model.LevelRef."},
 }
 
